@@ -11,12 +11,29 @@ CONFIGS = {
 }
 
 
+def big(name, which, lo, hi, instances, per):
+    return dict(name=name, MaxN=3, queries=(which,), MaxStop=1, MaxHide=1, big=dict(BigMin=lo, BigMax=hi, Instances=instances, PerShape=per))
+
+
+for _w in ("dict", "graph"):
+    CONFIGS[(_w, "quick")] += [big("big-%s-60" % _w, _w, 10, 60, 36, 10), big("big-%s-300" % _w, _w, 100, 300, 6, 6)]
+    CONFIGS[(_w, "thorough")] += [big("big-%s-80" % _w, _w, 10, 80, 300, 20), big("big-%s-400" % _w, _w, 100, 400, 24, 8)]
+
+
 def tlc_cfg(c):
+    if c.get("big"):
+        consts = {"Nil": 0, "MaxN": c["MaxN"], "Queries": set(c["queries"]), "MaxStop": c["MaxStop"], "MaxHide": c["MaxHide"]}
+        consts.update(c["big"])
+        return T.cfg_text(consts, init="BigInit", next_="BigNext", view="View", properties=("BigThm_Dict", "BigThm_Graph"),
+                          action_constraints=("Emit",), deadlock=False)
     return T.cfg_text({"Nil": 0, "MaxN": c["MaxN"], "Queries": set(c["queries"]), "MaxStop": c["MaxStop"], "MaxHide": c["MaxHide"]},
                       view="View", invariants=("Lem_Esc",), properties=("Thm_Dict", "Thm_Graph"), action_constraints=("Emit",), deadlock=False)
 
 
 def run_model(c, coverage=False):
+    if c.get("big"):
+        return T.run_vectors("MC_ExportBig", tlc_cfg(c), c["name"], lambda st: st["distinct"] * c["big"]["PerShape"], workers=1,
+                             extra=("-seed", str(19 + core.seed())))
     return T.run_vectors("MC_Export", tlc_cfg(c), c["name"], lambda st: st["generated"] - st["distinct"])
 
 
@@ -71,15 +88,15 @@ def _judge(outcomes, cap=3000):
                 e = None
                 if "obs_d" in b and b["what"].startswith("JsonExporter"):
                     e = {"id": ident, "q": "json_export", "par": att["par"], "ch": att["ch"], "attrs": q["attrs"], "s": q["s"], "o": q["o"],
-                         "jml": q["jml"], "obs": b["obs_d"]}
+                         "jml": q["jml"], "obs": export_replay.flatten_d(b["obs_d"])}
                     if b.get("jexp") == q["jd_default"] and q["jd_default"] != q["jd"]:
                         e["o"] = dict(q["o"], attriter="none", ml=export_replay.NOMAX, ci=dict(q["o"]["ci"], kind="list", hide=[]))
                 elif "obs_d" in b and b["what"] == "export(import_(d)) != d":
                     b["verdict"] = ["C10"]      # decided by equality with the emitted dictionary (round trip)
                 elif "obs_d" in b:
-                    e = {"id": ident, "q": "dict_export", "par": att["par"], "ch": att["ch"], "attrs": q["attrs"], "s": q["s"], "o": q["o"], "obs": b["obs_d"]}
+                    e = {"id": ident, "q": "dict_export", "par": att["par"], "ch": att["ch"], "attrs": q["attrs"], "s": q["s"], "o": q["o"], "obs": export_replay.flatten_d(b["obs_d"])}
                 elif "obs_imp" in b:
-                    e = {"id": ident, "q": "json_import" if b["prop"] == "C11" else "dict_import", "d": b["d"],
+                    e = {"id": ident, "q": "json_import" if b["prop"] == "C11" else "dict_import", "d": export_replay.flatten_d(b["d"]),
                          "obs": {"p": b["obs_imp"]["p"], "attrs": b["obs_imp"]["attrs"]}}
                     b["classes"] = b["obs_imp"]["classes"]
                 elif "obs" in b and "iter" in b:
